@@ -240,6 +240,11 @@ def bindDefaults (ctxVars : List (String × Val)) : St → List (String × Optio
      | .error err => .error (err, stc.quirk))
   | stc, (p, none) :: more => bindDefaults ctxVars (stc.bind p (.undef "")) more
 
+def callerDepthMismatch (caller : Option CallerDef) (depth : Nat) : Bool :=
+  match caller with
+  | some c => c.depth != depth
+  | none => false
+
 /-- `m(args)`: arguments are evaluated in the caller's scope; the body runs over the scopes the macro was written in -/
 def callMacroWith (rn : Runner) (ctxVars : List (String × Val)) (fuelA : Nat) (st : St) (name : String) (args : List Expr)
     (caller : Option CallerDef) : Except (Err × Bool) (St × String) :=
@@ -254,6 +259,12 @@ def callMacroWith (rn : Runner) (ctxVars : List (String × Val)) (fuelA : Nat) (
     | some m =>
       if args.length > m.params.length then .error (.typeError, st.quirk) else
       if caller.isSome && !usesCaller fuelA m.body then .error (.typeError, st.quirk) else
+      -- The call block's body is a closure over the scopes of the CALL SITE.  `callerOut` rebuilds them as "the
+      -- `c.depth` outermost scopes of the stack the macro runs on", which is the call site's stack exactly when the
+      -- block is written at the depth the macro was defined at.  A call block nested deeper than its macro's
+      -- definition (`{% for d in ys %}{% call m() %}{{ d }}{% endcall %}{% endfor %}` with a top-level `m`) is outside
+      -- the model's fragment: answer `oom` (never compared) rather than look the loop variable up in the wrong scope.
+      if callerDepthMismatch caller m.depth then .error (.oom, st.quirk) else
       let closure : St := { st with frames := closureFrames st.frames m.depth }
       let bound := (m.params.zip argVals).map (fun p => (p.1.1, p.2))
       let f0 : Frame := { vars := bound.reverse, caller := caller, assigns := assignedIn fuelA m.body }
